@@ -327,4 +327,28 @@ PROPS = {
         "gen_facts": [],
         "timeout": {"quick": 900, "thorough": 7200},
     },
+    "C14": {
+        "level_text": "FULL at the ref level: after a removal the local ref and the remote-tracking ref for every configured remote are absent "
+                      "(remove_targets), every other ref is kept in place (remove_frame, remove_subset, remove_sublist), repeating it changes "
+                      "nothing (remove_idem), no tracking ref is left for a later merge to bring the entity back (remove_persists); after a "
+                      "wipe no ref under the git-bug namespaces remains and nothing outside them is touched (wipe_clean, wipe_frame); the "
+                      "pinned tree's RemoveAll is shown to leave tracking refs by a kernel-checked witness. The cache entry, the index "
+                      "document, configuration and local storage are checked by the correspondence run (entity API, cache API and the CLI "
+                      "binary, 0..3 remotes, any subset holding the entity, neighbours, host refs).",
+        "level_note": "Trusted: Lean kernel, harness. Ref names are modelled as strings built from namespace, remote and id; go-git's RemoveRef "
+                      "is assumed to delete exactly the named ref. Fixed in /repo: wipe always failed on the configuration step; RemoveAll "
+                      "left tracking refs of non-local entities.",
+        "required_theorems": ["remove_targets", "remove_frame", "remove_subset", "remove_idem", "remove_sublist", "remove_persists",
+                              "wipe_clean", "wipe_frame", "removeAll_local_only_leaves_tracking_ref"],
+        "slices": ["C14"],
+        "needs_gitbug": True,
+        "rule": "go-git repositories with 0..3 bare remotes, the target bug pushed to a random subset, two neighbours pushed everywhere, a host "
+                "branch and tag; removal through bug.Remove, RepoCacheBug.Remove (then resolve/prefix/query, reopen, merge without fetch) "
+                "and `git-bug bug rm`; all refs, the local git configuration and neighbour readability before/after, removal repeated; "
+                "`git-bug wipe` with and without a user identity, with a fetched-never-merged bug and with a bug whose local ref is gone; "
+                "non-trivial/distinct = distinct (refs, id) pairs",
+        "trusted_base": [KERNEL, TIE, "model: GitBugModel.Refs (remove, removeAll, wipe)"],
+        "assumptions": [],
+        "gen_facts": [],
+    },
 }
